@@ -22,7 +22,7 @@ public:
     i.rule = "plans: 1-4 fault-free transactions write -> read with the reader options that correspond to the writer options, read chunk size randomised; non-trivial = >=3 completed steps of which >=1 value comparison; distinct = distinct fingerprint of the executed op-kind/outcome sequence";
     i.simTime = "steps";
     i.faultKinds = {"read-chunking"};
-    i.probeNames = {"compared:table", "compared:dist", "compared:params", "compared:plist", "compared:wildcard", "compared:optfile", "compared:resolve", "compared:resolve-dollar-shape", "compared:optchain", "compared:keyval", "compared:tokens", "compared:tokens-after-consuming", "compared:tokens-after-consuming-mixed-separators",
+    i.probeNames = {"compared:table", "compared:dist", "compared:params", "compared:plist", "compared:wildcard", "compared:optfile", "compared:resolve", "compared:resolve-dollar-shape", "compared:optchain", "compared:keyval", "compared:keyval-substitution", "compared:tokens", "compared:tokens-after-consuming", "compared:tokens-after-consuming-mixed-separators",
                     "written:table", "written:dist", "written:pfmt", "written:plist", "written:interval", "written:opt", "written:chain", "written:keyval"};
     i.assumptions = {"tables: 1..6 columns, at least two text lines, unique names, row names only together with column names, separator-free non-blank cells, single-character separator; reader called with the same separator, header = table has column names",
                      "row-names-from-column option: compared only for tables without row names whose chosen column holds unique values",
@@ -30,7 +30,7 @@ public:
                      "option files: map equality for files without C block comments and without duplicate keys; variable resolution asserted (no '$(' left) for acyclic definitions only",
                      "include chains: every key of every reachable file is present and no reference is left; which definition wins is not asserted",
                      "interval descriptions, formulas: exercised, not compared (not in the statement)",
-                     "clauses without storage (strict decimal grammar, changeKeyvals) are not decided here; wildcard matching is compared with a reference glob matcher only for the names read back from stored parameter lists and option maps and patterns made from those names (own name, prefix*, *suffix, first*last, *, empty, **); the re-join law is checked only for non-solid single-character delimiters with empty tokens allowed and no leading delimiter"};
+                     "the strict decimal grammar of number conversion has no storage in it and is not decided here; argument substitution (changeKeyvals) is decided on the procedures read back from storage: a plan-chosen subset of the present keys plus one absent key; wildcard matching is compared with a reference glob matcher only for the names read back from stored parameter lists and option maps and patterns made from those names (own name, prefix*, *suffix, first*last, *, empty, **); the re-join law is checked only for non-solid single-character delimiters with empty tokens allowed and no leading delimiter"};
     i.tolerances["dist"] = "2e-5*(1+|x|) (>=100x the worst unchanged-tree deviation 1.3e-7, Beta) on class values and probabilities of families that invert a cdf; Simple/Constant 1e-9*(1+|x|); Constant with a long decimal value + 2*10^-p (p = stream precision)";
     i.tolerances["params"] = "0.6e-12 + 1e-15*|v| (12 decimals written)";
     i.tolerances["plist"] = "0.6*10^-p + 1e-14*|v| (p = stream precision)";
@@ -57,7 +57,7 @@ public:
       if (kind == K_DIST) { shape = shape % 80; if (freeValues) shape += 80; shape += 160 * (1 | 2 | 8 | riskyAllow); }
       if (kind == K_OPT) { long n = shape % 9, bits = (shape / 9) & (1 | 2 | 4 | 32); shape = n + 9 * bits; }        // no cycles, no block comments, no duplicate keys
       if (kind == K_CHAIN) { long nf = shape % 3, topo = (shape / 3) % 6; if (topo == 4) topo = 0; shape = nf + 3 * (topo + 6 * ((shape / 18) & 3)); }
-      if (kind == K_KEYVAL) shape = shape % 14 + ((shape & 1024) ? 28 : 0);
+      if (kind == K_KEYVAL) shape = shape % 14 + ((shape & 1024) ? 28 : 0) + ((shape & 2048) ? (1L << 20) : 0);     // bit 20: blanks around '='
       p.ops.push_back(Op(writerOp(kind), static_cast<long>(rng.next() & 0x3fffffff), shape, rng.below(13), 0));
       long docIdx = t;
       std::vector<std::string> nat = naturalReaders(kind);
